@@ -351,6 +351,48 @@ def callers_pass_libparam(ctx, prog, fn, pvar):
 
 
 # ---------------------------------------------------------------------- REC-GUARD
+def _bits(v):
+    return ("c", "bn_bits", (("v", v),))
+
+
+def _ceil(a, b):
+    return ("b", "+", ("b", "/", ("b", "-", a, ("i", 1)), b), ("i", 1))
+
+
+def _add(a, c):
+    return ("b", "+", a, ("i", c))
+
+
+# entries each recoder writes (its contract, derived by reading the loops), as a function of its parameters;
+# P maps parameter names to variable indices.  The guard on *len must imply at least this many.
+REC_NEED = {
+    "bn_rec_win": lambda P: _ceil(_bits(P["k"]), ("v", P["w"])),           # one entry per w-bit window
+    "bn_rec_slw": lambda P: _bits(P["k"]),                                  # worst case one entry per bit
+    "bn_rec_naf": lambda P: _add(_bits(P["k"]), 1),                         # NAF is at most one digit longer than k
+    "bn_rec_tnaf": lambda P: _add(_bits(P["k"]), 1),                        # reference: today's guard
+    "bn_rec_rtnaf": lambda P: _add(_bits(P["k"]), 1),                       # reference: today's guard
+    "bn_rec_reg": lambda P: _add(_ceil(("v", P["n"]), ("b", "-", ("v", P["w"]), ("i", 1))), 1),   # l digits plus the final carry digit
+    "bn_rec_jsf": lambda P: _add(("b", "*", ("i", 2), _bits(P["k"])), 2),   # two rows of max(bits)+1 entries (lower bound with bits(k) only)
+    "bn_rec_sac": lambda P: _add(_ceil(("v", P["n"]), ("b", "*", ("v", P["c"]), ("v", P["m"]))), 2),   # l = ceil(n, c*m) + 1 columns, *len > l
+}
+
+
+def len_lower_bounds(facts, starlen):
+    out = []
+    for a in facts:
+        if a[0] == "cmp" and a[1] == starlen and a[2] in (">=", ">", "=="):
+            out.append(Poly.const(a[3] + 1 if a[2] == ">" else a[3]))
+        elif a[0] == "rel" and a[1] == starlen and a[2] in (">=", ">", "=="):
+            p = extent.norm_poly(a[3], facts)
+            if p is not None:
+                out.append(p + Poly.const(1) if a[2] == ">" else p)
+        elif a[0] == "rel" and a[3] == starlen and a[2] in ("<=", "<", "=="):
+            p = extent.norm_poly(a[1], facts)
+            if p is not None:
+                out.append(p + Poly.const(1) if a[2] == "<" else p)
+    return out
+
+
 def rule_rec_guard(ctx, prog, chk):
     n = 0
     for fn in prog.all:
@@ -364,20 +406,38 @@ def rule_rec_guard(ctx, prog, chk):
         starlen = ("u", "*", ("v", lenv))
         g = ctx.xcfg(prog, fn)
 
+        P = {fn.vars[i]["n"]: i for i in fn.params}
+        try:
+            need_key = REC_NEED[base](P)
+        except KeyError:
+            raise AnalysisBroken("REC-GUARD: parameter names of %s changed; the contract table must be re-read" % fn.name)
+        holder = {}
+        weak_edges = []
+
         def edge_gen(node, label, atoms, starlen=starlen):
             out = []
+            guard = False
             for a in atoms:
                 if a[0] in ("cmp", "rel") and a[1] == starlen and a[2] in (">=", ">", "=="):
-                    out.append(("ev", "lenguard"))
+                    guard = True
                 elif a[0] == "rel" and a[3] == starlen and a[2] in ("<=", "<", "=="):
-                    out.append(("ev", "lenguard"))
+                    guard = True
+            if guard:
+                out.append(("ev", "lenguard"))
+                st = holder["F"].edge_state | frozenset(atoms)
+                need = extent.norm_poly(need_key, st)
+                lbs = len_lower_bounds(st, starlen)
+                if need is None or any(prove_nonneg(lb - need, st) for lb in lbs):
+                    out.append(("ev", "lenguard-ok"))
+                else:
+                    weak_edges.append((node, need, lbs))
             return out
-        F = Facts(prog, g, edge_gen=edge_gen, mark_thrown=False)
+        F = holder["F"] = Facts.__new__(Facts)
+        F.__init__(prog, g, edge_gen=edge_gen, mark_thrown=False)
         bad = []
+        weak = []
         writes = 0
-        for nd in g.nodes:
-            if nd.kind != "el" or nd.proto:
-                continue
+        for nd in sorted((x for x in g.nodes if x.kind == "el" and not x.proto), key=lambda x: x.id):
             s = F.IN.get(nd)
             if s is None:
                 continue
@@ -386,7 +446,16 @@ def rule_rec_guard(ctx, prog, chk):
             writes += 1
             if ("ev", "lenguard") not in s:
                 bad.append(nd)
+                continue
+            if ("ev", "lenguard-ok") not in s and weak_edges:
+                # some path reaches this write through a test that does not imply the contract
+                weak.append((nd, weak_edges[0][1], weak_edges[0][2]))
         n += 1
+        if weak and not bad:
+            nd, need, lbs = weak[0]
+            chk.fail("REC-GUARD", fn, fn.vars[bufv]["n"] + ":bound", "the test of *%s admits a buffer shorter than the %s entries the recoder writes (tested lower bound: %s)" % (
+                fn.vars[lenv]["n"], need.fmt(fn), " | ".join(lb.fmt(fn) for lb in lbs) or "none that is still valid at the write"), line=nd.line())
+            continue
         if bad:
             chk.fail("REC-GUARD", fn, fn.vars[bufv]["n"], "write through the caller's buffer is reachable without a preceding test of *%s whose failing side leaves the function: %s" % (
                 fn.vars[lenv]["n"], fn.fmt(bad[0].el.e)[:80]), line=bad[0].line())
@@ -416,15 +485,275 @@ def writes_through(prog, fn, e, var):
     return False
 
 
+# ---------------------------------------------------------------------- CAP
+GROWERS = {"bn_grow": 1, "bn_make": 1, "bn_new_size": 1}     # callee -> index of the requested number of digits
+
+
+def digit_stores(fn, e):
+    """yield (handle key, index tree, text) for stores X->dp[E] (op)= ..."""
+    for n in ir.walk(fn, e):
+        t = n[0]
+        if t in ("=", "o=") or (t == "u" and n[1] in ("++", "--", "p++", "p--")):
+            lhs = n[1] if t == "=" else n[2]
+            l = ir.strip_casts(lhs)
+            if isinstance(l, list) and l[0] == "x":
+                b = ir.strip_casts(fn.resolve(l[1]))
+                if isinstance(b, list) and b[0] == "m" and b[2] == "dp" and b[4] in ("bn_st",):
+                    yield key(fn, b[1]), l[2], fn.fmt(lhs)
+
+
+def rule_cap(ctx, prog, chk):
+    """CAP: after bn_grow(X, G) a digit store X->dp[E] needs E + 1 <= G.  Reported when E + 1 > G is *provable*
+    (the request is definitely too small: for the largest admitted G the store lies outside the digit vector)."""
+    n = 0
+    for fn in prog.all:
+        has_grow = has_store = False
+        for el in fn.all_elements():
+            for c in ir.calls_in(fn, el.e):
+                if c[1] in GROWERS:
+                    has_grow = True
+            for _ in digit_stores(fn, el.e):
+                has_store = True
+        if not (has_grow and has_store):
+            continue
+        g = ctx.xcfg(prog, fn)
+
+        def gen(node, s, pre):
+            out = []
+            for c in ir.calls_in(fn, node.el.e):
+                if c[1] in GROWERS and len(c[2]) > GROWERS[c[1]]:
+                    gk = key(fn, c[2][GROWERS[c[1]]])
+                    if engines._pure_key(gk):
+                        out.append(("capge", key(fn, c[2][0]), gk))
+            return out
+        F = Facts(prog, g, gen=gen, mark_thrown=False)
+        for nd in g.nodes:
+            if nd.kind != "el" or nd.proto:
+                continue
+            s = F.IN.get(nd)
+            if s is None:
+                continue
+            for hk, idx, txt in digit_stores(fn, nd.el.e):
+                caps = [a[2] for a in s if a[0] == "capge" and a[1] == hk]
+                if not caps:
+                    continue
+                n += 1
+                need = extent.norm_poly(key(fn, idx), s)
+                if need is None:
+                    continue
+                need = need + Poly.const(1)
+                verdict = None
+                for ck in caps:
+                    cp = extent.norm_poly(ck, s)
+                    if cp is None:
+                        continue
+                    if prove_nonneg(cp - need, s):
+                        verdict = "ok"
+                        break
+                    if prove_nonneg(need - cp - Poly.const(1), s):
+                        verdict = ("short", cp)
+                if verdict == "ok":
+                    chk.ok("CAP", fn, txt, "requested capacity covers digit index %s" % fn.fmt(idx), line=nd.line())
+                elif verdict is not None:
+                    chk.fail("CAP", fn, txt, "digit store at index %s needs %s digits but the preceding capacity request only asks for %s: when that many are the last ones available the store lies outside the digit vector and no precision error is raised" % (
+                        fn.fmt(idx), need.fmt(fn), verdict[1].fmt(fn)), line=nd.line())
+                else:
+                    chk._count("CAP", fn, True)
+    return n
+
+
+# ---------------------------------------------------------------------- COPY-IN
+def rule_copy_in(ctx, prog, chk):
+    """COPY-IN: dv_copy(scratch, X->dp, X->used) from a caller-supplied integer X (a const bn parameter of a public
+    function) into a fixed-size local array or a stack allocation needs a dominating bound that relates X->used (or
+    bn_bits(X)) to the capacity of the scratch; otherwise an operand longer than expected is copied past it."""
+    n = 0
+    for fn in prog.all:
+        sites = set()
+        for el in fn.all_elements():
+            for c in ir.calls_in(fn, el.e):
+                if c[1] == "dv_copy":
+                    sites.add(el.id)
+        if not sites or fn.static:
+            continue
+        g = ctx.xcfg(prog, fn)
+        F = Facts(prog, g, gen=make_bits_gen(prog, fn, {}), mark_thrown=False)
+        for nd in g.nodes:
+            if nd.kind != "el" or nd.el.id not in sites:
+                continue
+            s = F.IN.get(nd)
+            if s is None:
+                continue
+            for c in ir.calls_in(fn, nd.el.e):
+                if c[1] != "dv_copy" or len(c[2]) < 3:
+                    continue
+                src = ir.strip_casts(fn.resolve(c[2][1]))
+                cnt = ir.strip_casts(fn.resolve(c[2][2]))
+                if not (isinstance(src, list) and src[0] == "m" and src[2] == "dp" and isinstance(cnt, list) and cnt[0] == "m" and cnt[2] == "used"):
+                    continue
+                xv = ir.base_var(fn, src)
+                if xv is None or ir.base_var(fn, cnt) != xv:
+                    continue
+                v = fn.vars[xv]
+                if v["k"] != "p" or not v.get("pc") or v.get("ot", "").replace("const ", "") != "bn_t":
+                    continue
+                cap = capacity(fn, s, c[2][0])
+                if cap is None:
+                    continue
+                n += 1
+                need = extent.norm_poly(key(fn, cnt), s)
+                obj = "dv_copy:%s" % v["n"]
+                if need is not None and prove_nonneg(cap - need, s):
+                    chk.ok("COPY-IN", fn, obj, "length %s of the caller's operand is bounded by the scratch capacity %s" % (need.fmt(fn), cap.fmt(fn)), line=nd.line())
+                else:
+                    chk.fail("COPY-IN", fn, obj, "copies %s->used digits of the caller's operand into scratch `%s` of %s digits without any bound relating the two: a longer operand is written past the scratch" % (
+                        v["n"], fn.fmt(c[2][0]), cap.fmt(fn)), line=nd.line())
+    return n
+
+
+# ---------------------------------------------------------------------- N0
+# the array-taking (simultaneous / batch) functions of the property's quantifier: counts n >= 0
+BATCH = re.compile(r"(_sim($|_)|_lag$|_evl$|^mpc_|_mxp_sim|_inv_sim$|_norm_sim$)")
+
+
+def rule_n0(ctx, prog, chk):
+    """N0: in a batch function with count parameter n indexing array parameters, an access to element [0] or [n-1]
+    of such an array needs a dominating fact that excludes n == 0."""
+    nobl = 0
+    for fn in prog.all:
+        if not BATCH.search(fn.name.split("__")[-1]):
+            continue
+        ints = [i for i in fn.params if "pc" not in fn.vars[i] and fn.vars[i]["c"] in ("int", "unsigned long", "unsigned int", "long", "size_t")]
+        ptrs = [i for i in fn.params if "pc" in fn.vars[i] and re.search(r"(\(\*\)\[|\*\s*\*|\*const \*)", fn.vars[i]["c"])]
+        if not ints or not ptrs:
+            continue
+        g = ctx.xcfg(prog, fn)
+        F = Facts(prog, g, mark_thrown=True)
+        # association: array parameter P is indexed by a variable i with the fact i < n
+        assoc = {}
+        accesses = []
+        for nd in g.nodes:
+            if nd.kind not in ("el", "br"):
+                continue
+            s = F.IN.get(nd)
+            if s is None or s is engines.UNIVERSE:
+                continue
+            if nd.kind == "el":
+                exprs = [nd.el.e]
+            else:
+                t = nd.info.get("term")
+                exprs = [t["c"]] if t and t.get("c") is not None else []
+            for e in exprs:
+                for sub in ir.walk(fn, e):
+                    if sub[0] != "x":
+                        continue
+                    b = ir.strip_casts(fn.resolve(sub[1]))
+                    if not (isinstance(b, list) and b[0] == "v" and b[1] in ptrs):
+                        continue
+                    ik = key(fn, sub[2])
+                    if ik[0] == "v":
+                        for a in s:
+                            if a[0] == "rel" and a[1] == ik and a[2] == "<" and a[3][0] == "v" and a[3][1] in ints:
+                                assoc.setdefault(b[1], set()).add(a[3][1])
+                    accesses.append((nd, s, b[1], ik, sub))
+        for nd, s, pv, ik, sub in accesses:
+            for nv in assoc.get(pv, ()):
+                nk = ("v", nv)
+                edge = None
+                if ik == ("i", 0):
+                    edge = "[0]"
+                elif ik == ("b", "-", nk, ("i", 1)):
+                    edge = "[%s - 1]" % fn.vars[nv]["n"]
+                if edge is None:
+                    continue
+                nobl += 1
+                ok = any(a[0] == "cmp" and a[1] == nk and engines.entails(a[2], a[3], "!=", 0) for a in s)
+                # inside a loop over the array the bound itself excludes n == 0
+                ok = ok or any(a[0] == "rel" and a[3] == nk and a[2] == "<" for a in s)
+                obj = "%s%s" % (fn.vars[pv]["n"], edge)
+                if ok:
+                    chk.ok("N0", fn, obj, "dominated by a fact excluding %s == 0" % fn.vars[nv]["n"], line=nd.line())
+                else:
+                    chk.fail("N0", fn, obj, "element %s of the array parameter is accessed although the count %s may be 0 (no preceding test, no enclosing loop over the array)" % (
+                        edge, fn.vars[nv]["n"]), line=nd.line())
+    return nobl
+
+
+# ---------------------------------------------------------------------- DIV0
+# reviewed divisors that are parameters without a zero test in the function itself (one reason each)
+DIV_REVIEWED = {
+    ("bench_compute", "benches"): "number of benchmark runs, a positive build-time constant (BENCH)",
+    ("bn_rec_win", "w"): "window width in bits: every caller passes a constant >= 1 (RLC_WIDTH, 2, RLC_DEPTH)",
+}
+
+
+def rule_div0(ctx, prog, chk):
+    """DIV0: in a public (non-static, not src/low) function a division or remainder by one of its own scalar
+    parameters is dominated by a fact that excludes zero (comparison, or a valid_*() predicate on it)."""
+    n = 0
+    for fn in prog.all:
+        if fn.static or "/low/" in fn.rfile or fn.rfile.startswith("src/low"):
+            continue
+        pset = set(i for i in fn.params if "pc" not in fn.vars[i])
+        sites = {}
+        for el in fn.all_elements():
+            for nd in ir.walk(fn, el.e):
+                d = None
+                if nd[0] == "b" and nd[1] in ("/", "%"):
+                    d = nd[3]
+                elif nd[0] == "o=" and nd[1] in ("/=", "%="):
+                    d = nd[3]
+                if d is None:
+                    continue
+                d = ir.peel(fn, d)
+                if isinstance(d, list) and d[0] == "v" and d[1] in pset:
+                    sites.setdefault(el.id, set()).add(d[1])
+        if not sites:
+            continue
+        g = ctx.xcfg(prog, fn)
+        F = Facts(prog, g, mark_thrown=True)
+        done = set()
+        for node in g.nodes:
+            if node.kind != "el" or node.el.id not in sites:
+                continue
+            s = F.IN.get(node)
+            if s is None or s is engines.UNIVERSE:
+                continue
+            for pv in sites[node.el.id]:
+                if (node.el.id, pv) in done:
+                    continue
+                done.add((node.el.id, pv))
+                n += 1
+                k = ("v", pv)
+                name = fn.vars[pv]["n"]
+                ok = any(a[0] == "cmp" and a[1] == k and engines.entails(a[2], a[3], "!=", 0) for a in s)
+                ok = ok or any(a[0] == "cmp" and isinstance(a[1], tuple) and a[1][0] == "c" and isinstance(a[1][1], str) and a[1][1].startswith("valid_")
+                               and k in a[1][2] and engines.entails(a[2], a[3], "!=", 0) for a in s)
+                if ok:
+                    chk.ok("DIV0", fn, name, "division by `%s` dominated by a test excluding zero" % name, line=node.line())
+                elif (fn.name.split("__")[-1], name) in DIV_REVIEWED:
+                    chk.ok("DIV0", fn, name, "reviewed: " + DIV_REVIEWED[(fn.name.split("__")[-1], name)], line=node.line())
+                else:
+                    chk.fail("DIV0", fn, name, "division or remainder by the parameter `%s` without a preceding test that it is not zero: a zero argument is a hardware divide error instead of an invalid-value error" % name, line=node.line())
+    return n
+
+
 # ---------------------------------------------------------------------- entry points
 def analyse(ctx, prog, chk, dyn=False):
     chk.used_program(prog)
     chk.assumptions = ["symbols in extent proofs denote non-negative quantities (sizes, counts, indices, bit lengths)",
                        "distinct local handles do not alias (RELIC never aliases temporaries)"]
     out = {}
+    if dyn:
+        from . import c08_typestate
+        out["typestate"] = c08_typestate.rule_typestate(ctx, prog, chk)
     if not dyn:
         out["buf_len"] = rule_buf_len(ctx, prog, chk)
         out["rec_guard"] = rule_rec_guard(ctx, prog, chk)
+        out["cap"] = rule_cap(ctx, prog, chk)
+        out["copy_in"] = rule_copy_in(ctx, prog, chk)
+        out["n0"] = rule_n0(ctx, prog, chk)
+        out["div0"] = rule_div0(ctx, prog, chk)
     return out
 
 
@@ -437,3 +766,10 @@ def run(ctx, chk):
     c = analyse(ctx, base, chk)
     chk.floor("BUF-LEN", "recoder call sites (BASE)", c["buf_len"], 150)
     chk.floor("REC-GUARD", "recoders", c["rec_guard"], 8)
+    chk.floor("CAP", "digit stores after a capacity request", c["cap"], 10)
+    chk.floor("N0", "element [0]/[n-1] accesses in batch functions", c["n0"], 20)
+    d = analyse(ctx, ctx.program("DYN"), chk, dyn=True)
+    chk.floor("TYPESTATE", "handle variables (DYN)", d["typestate"], 1500)
+    if chk.tier == "thorough":
+        for cfg in ("P255", "P381"):
+            analyse(ctx, ctx.program(cfg), chk)
